@@ -33,7 +33,7 @@ def queries(tier):
         defs = {'KINDSEL': kind, 'N': n, 'OBUF': 4 + 4 * max(n, 1) + 4}
         if first is not None:
             defs['FIRST'] = '0x%02x' % first
-            if first <= 32 or chr(first) in '#;\'()",`{}|\\' or first == 127:
+            if first <= 32 or chr(first) in '#;\'()",`{}|\\':
                 defs['MUSTQUOTE'] = 1
         defs.update(extra_defs or {})
         qs.append(Query(name=name, harness='C08_port.c', units=UNITS, unit_defs=dict(UD, KIT_MAX_bytes=8, KIT_MAX_symbol=8), defs=defs, unwind=4 * max(n, 1) + 4,
